@@ -105,11 +105,19 @@ pub fn unify(state: &mut TypeCheckerState, watchdog: &DynWatchdog) -> Result<()>
                 crate::data::vector_map::ToUniqueIndex::index(&ty_var),
                 &mut inferred_expressions,
             );
+
+            // The merge operation is not associative, so the result of the fold must not be
+            // allowed to depend on the (arbitrary) iteration order of the inference set
+            inferred_expressions
+                .make_contiguous()
+                .sort_by_cached_key(fold_position);
+
             #[cfg(smlxl_storage_layout_extractor_verif)]
             crate::verif::note_fold(
                 crate::data::vector_map::ToUniqueIndex::index(&ty_var),
                 &inferred_expressions,
             );
+
             let mut current = inferred_expressions
                 .pop_front()
                 .expect("We know there is at least one item in the expressions queue");
@@ -167,6 +175,47 @@ pub fn unify(state: &mut TypeCheckerState, watchdog: &DynWatchdog) -> Result<()>
     state.set_result(forest);
 
     Ok(())
+}
+
+/// Computes the position of `expression` in the canonical order in which the
+/// evidence for a single type variable is folded by [`unify`].
+///
+/// Conflicts come first as they absorb everything. Words come next, so that
+/// contradictory word evidence meets before a type constructor that tolerates
+/// a word (dynamic arrays, bytes, packed encodings) can hide it. Expressions
+/// that differ only in their type variables compare equal, as combining those
+/// is symmetric up to the choice of representative.
+fn fold_position(expression: &TE) -> (u8, usize, u8, Vec<(usize, usize)>, ethnum::U256) {
+    let none = || (0, 0, Vec::new(), ethnum::U256::ZERO);
+    let (rank, (width, usage, spans, length)) = match expression {
+        TE::Conflict { .. } => (0, none()),
+        TE::Equal { .. } => (1, none()),
+        TE::Word { width, usage } => (
+            2,
+            (
+                width.map_or(0, |w| w.saturating_add(1)),
+                *usage as u8,
+                Vec::new(),
+                ethnum::U256::ZERO,
+            ),
+        ),
+        TE::Bytes => (3, none()),
+        TE::Packed { types, is_struct } => (
+            4,
+            (
+                0,
+                u8::from(*is_struct),
+                types.iter().map(|s| (s.offset, s.size)).sorted().collect(),
+                ethnum::U256::ZERO,
+            ),
+        ),
+        TE::DynamicArray { .. } => (5, none()),
+        TE::FixedArray { length, .. } => (6, (0, 0, Vec::new(), *length)),
+        TE::Mapping { .. } => (7, none()),
+        TE::Any => (8, none()),
+    };
+
+    (rank, width, usage, spans, length)
 }
 
 /// Combines `left` with `right` to produce a new type expression.
